@@ -43,12 +43,19 @@ section
 variable (buffer : Node) (hb : Inv buffer) (R0 : FS.State) (hc : Compat (abs buffer) R0)
 
 /-- the remote tree during a replay: well formed, and at every path either still the original remote's entry
-or already the buffer's -/
+or an entry of the buffer's kind where the buffer has one (the buffer's own entry once the replay got there; a
+partly written file when a `Write` on the remote failed) -/
 def Between (Rc : Node) : Prop :=
-  Inv Rc ∧ ∀ q, abs Rc q = R0 q ∨ (abs Rc q = abs buffer q ∧ abs buffer q ≠ none)
+  Inv Rc ∧ ∀ q, abs Rc q = R0 q
+    ∨ ((abs Rc q).map Entry.isDir = (abs buffer q).map Entry.isDir ∧ abs buffer q ≠ none)
 
 /-- the path already carries the buffer's entry -/
 def Done (Rc : Node) (q : List Name) : Prop := abs Rc q = abs buffer q ∧ abs buffer q ≠ none
+
+omit hc in
+theorem Done.kind {Rc : Node} {q : List Name} (h : Done buffer Rc q) :
+    (abs Rc q).map Entry.isDir = (abs buffer q).map Entry.isDir ∧ abs buffer q ≠ none :=
+  ⟨by rw [h.1], h.2⟩
 
 include hc in
 /-- `remote.MkdirAll(m)` for a directory `M` of the buffer, on a tree in between -/
@@ -63,7 +70,7 @@ theorem between_mkdir (Rc : Node) (hRc : Between buffer R0 Rc) (m : Bytes) (M : 
     have hBq := prefix_of_dir_is_dir buffer M q hM hq
     rcases hRc.2 q with h | ⟨h, _⟩
     · have := hc q _ _ hBq (h ▸ hf); simp [Entry.isDir] at this
-    · rw [h, hBq] at hf; cases hf
+    · rw [hf, hBq] at h; simp [Entry.isDir] at h
   obtain ⟨hres, hst⟩ : (Root.mkdirAll Rc m).2 = .ok ∧ abs (Root.mkdirAll Rc m).1 = FS.mkdirSt (abs Rc) M := by
     rcases hw.1 with ⟨_, b, c⟩ | ⟨a, _, _⟩
     · exact ⟨b, c⟩
@@ -76,7 +83,7 @@ theorem between_mkdir (Rc : Node) (hRc : Between buffer R0 Rc) (m : Bytes) (M : 
     rw [hst, hBq]; simp [FS.mkdirSt, hq]
   refine ⟨hres, ⟨hinv, fun q => ?_⟩, fun q hq => ?_, hdone⟩
   · by_cases hq : q <+: M
-    · exact Or.inr (hdone q hq)
+    · exact Or.inr (hdone q hq).kind
     · rw [hst]; simp only [FS.mkdirSt, if_neg hq]; exact hRc.2 q
   · by_cases hq' : q <+: M
     · exact hdone q hq'
@@ -84,14 +91,15 @@ theorem between_mkdir (Rc : Node) (hRc : Between buffer R0 Rc) (m : Bytes) (M : 
       rw [hst]; simp only [FS.mkdirSt, if_neg hq']; exact hq.1
 
 include hb hc in
-/-- `remote.Writer(w)` + the buffer's data, for a file `W` of the buffer whose parent is already there -/
-theorem between_write (Rc : Node) (hRc : Between buffer R0 Rc) (w : Bytes) (W : List Name) (d : Bytes)
-    (hn : norm w = some W) (hW : abs buffer W = some (.file d))
+/-- `remote.Writer(w)` and any chunks written to it, for a file `W` of the buffer whose parent is already there:
+the tree stays in between; with the buffer's data it carries the buffer's entry -/
+theorem between_writer (Rc : Node) (hRc : Between buffer R0 Rc) (w : Bytes) (W : List Name) (d : Bytes)
+    (cs : List Bytes) (hn : norm w = some W) (hW : abs buffer W = some (.file d))
     (hpar : ∀ q, q <+: W.dropLast → Done buffer Rc q) :
-    (Root.writer Rc w (ioChunks d)).2 = .ok ∧ Between buffer R0 (Root.writer Rc w (ioChunks d)).1
-    ∧ (∀ q, Done buffer Rc q → Done buffer (Root.writer Rc w (ioChunks d)).1 q)
-    ∧ (∀ q, q <+: W → Done buffer (Root.writer Rc w (ioChunks d)).1 q) := by
-  have hw := root_writer Rc hRc.1 w (ioChunks d) W hn
+    (Root.writer Rc w cs).2 = .ok ∧ Between buffer R0 (Root.writer Rc w cs).1
+    ∧ (∀ q, q ≠ W → Done buffer Rc q → Done buffer (Root.writer Rc w cs).1 q)
+    ∧ (cs.flatten = d → Done buffer (Root.writer Rc w cs).1 W) := by
+  have hw := root_writer Rc hRc.1 w cs W hn
   have hWne : W ≠ [] := by
     rintro rfl
     obtain ⟨k, hk⟩ := hb.dir
@@ -106,32 +114,85 @@ theorem between_write (Rc : Node) (hRc : Between buffer R0 Rc) (w : Bytes) (W : 
     · intro hd
       rcases hRc.2 W with h | ⟨h, _⟩
       · have := hc W _ _ hW (h ▸ hd); simp [Entry.isDir] at this
-      · rw [h, hW] at hd; cases hd
-  obtain ⟨hres, hst⟩ : (Root.writer Rc w (ioChunks d)).2 = .ok
-      ∧ abs (Root.writer Rc w (ioChunks d)).1 = FS.writeSt (abs Rc) W d := by
+      · rw [hd, hW] at h; simp [Entry.isDir] at h
+  obtain ⟨hres, hst⟩ : (Root.writer Rc w cs).2 = .ok
+      ∧ abs (Root.writer Rc w cs).1 = FS.writeSt (abs Rc) W cs.flatten := by
     rcases hw.1 with ⟨_, b, c⟩ | ⟨a, _, _⟩
-    · exact ⟨b, by rw [c, ioChunks_flatten]⟩
+    · exact ⟨b, c⟩
     · exact absurd hpre a
-  have hinv : Inv (Root.writer Rc w (ioChunks d)).1 := hw.2.1.inv hRc.1 (Path.norm_plain w W hn)
-  have hdone : ∀ q, q <+: W → Done buffer (Root.writer Rc w (ioChunks d)).1 q := by
-    intro q hq
-    by_cases hqW : q = W
-    · subst hqW
-      refine ⟨?_, by rw [hW]; simp⟩
-      rw [hst, hW]; simp [FS.writeSt]
-    · have hq' : q <+: W.dropLast := prefix_dropLast q W hq hqW
-      refine ⟨?_, by rw [hBpre q hq']; simp⟩
-      rw [hst, hBpre q hq']; simp [FS.writeSt, hqW, FS.mkdirSt, hq']
-  have hframe : ∀ q, ¬ q <+: W → abs (Root.writer Rc w (ioChunks d)).1 q = abs Rc q := by
+  have hinv : Inv (Root.writer Rc w cs).1 := hw.2.1.inv hRc.1 (Path.norm_plain w W hn)
+  have hpre' : ∀ q, q <+: W.dropLast → Done buffer (Root.writer Rc w cs).1 q := by
+    intro q hq'
+    have hqW : q ≠ W := prefix_dropLast_ne q W hWne hq'
+    refine ⟨?_, by rw [hBpre q hq']; simp⟩
+    rw [hst, hBpre q hq']; simp [FS.writeSt, hqW, FS.mkdirSt, hq']
+  have hframe : ∀ q, ¬ q <+: W → abs (Root.writer Rc w cs).1 q = abs Rc q := by
     intro q hq
     rw [hst]; exact writeSt_frame _ _ _ _ hq
-  refine ⟨hres, ⟨hinv, fun q => ?_⟩, fun q hq => ?_, hdone⟩
+  have hatW : abs (Root.writer Rc w cs).1 W = some (.file cs.flatten) := by rw [hst]; exact writeSt_at _ _ _
+  refine ⟨hres, ⟨hinv, fun q => ?_⟩, fun q hqW hq => ?_, fun hd => ⟨by rw [hatW, hW, hd], by rw [hW]; simp⟩⟩
   · by_cases hq : q <+: W
-    · exact Or.inr (hdone q hq)
+    · by_cases hqW : q = W
+      · subst hqW
+        exact Or.inr ⟨by rw [hatW, hW]; rfl, by rw [hW]; simp⟩
+      · exact Or.inr (hpre' q (prefix_dropLast q W hq hqW)).kind
     · rw [hframe q hq]; exact hRc.2 q
   · by_cases hq' : q <+: W
-    · exact hdone q hq'
+    · exact hpre' q (prefix_dropLast q W hq' hqW)
     · exact ⟨by rw [hframe q hq']; exact hq.1, hq.2⟩
+
+include hb hc in
+/-- `StreamCopy` onto the remote with an injected failure anywhere (or nowhere): the tree stays in between; when
+the calls succeed the file and its parents carry the buffer's entries and nothing done before is lost -/
+theorem stream_spec (fa : Option Nat) (n : Nat) (Rc : Node) (hRc : Between buffer R0 Rc) (w : Bytes)
+    (W : List Name) (d : Bytes) (hn : norm w = some W) (hW : abs buffer W = some (.file d))
+    (hpar : ∀ q, q <+: W.dropLast → Done buffer Rc q) :
+    Between buffer R0 (remoteStream fa n w (ioChunks d) Rc).1.1
+    ∧ ((remoteStream fa n w (ioChunks d) Rc).1.2 = .ok →
+        (∀ q, Done buffer Rc q → Done buffer (remoteStream fa n w (ioChunks d) Rc).1.1 q)
+        ∧ ∀ q, q <+: W → Done buffer (remoteStream fa n w (ioChunks d) Rc).1.1 q)
+    ∧ (fa = none → (remoteStream fa n w (ioChunks d) Rc).1.2 = .ok) := by
+  have hWne : W ≠ [] := by
+    rintro rfl
+    obtain ⟨k, hk⟩ := hb.dir
+    rw [hk] at hW; simp [abs, Node.lookup, Node.entry] at hW
+  have hopen := between_writer buffer hb R0 hc Rc hRc w W d [] hn hW hpar
+  have hfull := between_writer buffer hb R0 hc Rc hRc w W d (ioChunks d) hn hW hpar
+  have hfullDone : (∀ q, Done buffer Rc q → Done buffer (Root.writer Rc w (ioChunks d)).1 q)
+      ∧ ∀ q, q <+: W → Done buffer (Root.writer Rc w (ioChunks d)).1 q := by
+    have hdW := hfull.2.2.2 (ioChunks_flatten d)
+    refine ⟨fun q hq => ?_, fun q hq => ?_⟩
+    · by_cases e : q = W
+      · rw [e]; exact hdW
+      · exact hfull.2.2.1 q e hq
+    · by_cases e : q = W
+      · rw [e]; exact hdW
+      · exact hfull.2.2.1 q e (hpar q (prefix_dropLast q W hq e))
+  unfold remoteStream
+  by_cases h0 : fa = some n
+  · rw [if_pos h0]
+    refine ⟨hRc, fun h => absurd h (by simp), fun h => ?_⟩
+    rw [h] at h0; cases h0
+  · rw [if_neg h0]
+    have eo : Root.writer Rc w [] = ((Root.writer Rc w []).1, .ok) := by rw [← hopen.1]
+    rw [eo]
+    simp only []
+    cases fa with
+    | none =>
+      simp only []
+      exact ⟨hfull.2.1, fun _ => hfullDone, fun _ => hfull.1⟩
+    | some k =>
+      simp only []
+      by_cases h1 : n < k ∧ k ≤ n + (ioChunks d).length
+      · rw [if_pos h1]
+        exact ⟨(between_writer buffer hb R0 hc Rc hRc w W d _ hn hW hpar).2.1, fun h => absurd h (by simp),
+          fun h => absurd h (by simp)⟩
+      · rw [if_neg h1]
+        by_cases h2 : k = n + (ioChunks d).length + 1
+        · rw [if_pos h2]
+          exact ⟨hfull.2.1, fun h => absurd h (by simp), fun h => absurd h (by simp)⟩
+        · rw [if_neg h2]
+          exact ⟨hfull.2.1, fun _ => hfullDone, fun h => absurd h (by simp)⟩
 
 include hb hc in
 /-- the mkdirAll loop of Commit -/
@@ -174,12 +235,12 @@ theorem commitWrite_spec (fa : Option Nat) (wr : List Bytes)
     (hwr : ∀ w ∈ wr, ∃ W d, norm w = some W ∧ abs buffer W = some (.file d) ∧ norm (pathDir w) = some W.dropLast)
     (Rc : Node) (n : Nat) (hRc : Between buffer R0 Rc) :
     Between buffer R0 (commitWrite fa buffer wr Rc n).1
-    ∧ (∀ q, Done buffer Rc q → Done buffer (commitWrite fa buffer wr Rc n).1 q)
     ∧ ((commitWrite fa buffer wr Rc n).2.2 = true →
-        ∀ w ∈ wr, ∀ W, norm w = some W → ∀ q, q <+: W → Done buffer (commitWrite fa buffer wr Rc n).1 q)
+        (∀ q, Done buffer Rc q → Done buffer (commitWrite fa buffer wr Rc n).1 q)
+        ∧ ∀ w ∈ wr, ∀ W, norm w = some W → ∀ q, q <+: W → Done buffer (commitWrite fa buffer wr Rc n).1 q)
     ∧ (fa = none → (commitWrite fa buffer wr Rc n).2.2 = true) := by
   induction wr generalizing Rc n with
-  | nil => exact ⟨hRc, fun _ h => h, by simp [commitWrite], fun _ => rfl⟩
+  | nil => exact ⟨hRc, fun _ => ⟨fun _ h => h, by simp⟩, fun _ => rfl⟩
   | cons w rest ih =>
     obtain ⟨W, d, hn, hW, hpd⟩ := hwr w (by simp)
     have hrest : ∀ w ∈ rest, ∃ W d, norm w = some W ∧ abs buffer W = some (.file d)
@@ -198,28 +259,31 @@ theorem commitWrite_spec (fa : Option Nat) (wr : List Bytes)
     unfold commitWrite
     by_cases hfa : fa = some n
     · simp only [remoteCall, if_pos hfa]
-      refine ⟨hRc, fun _ h => h, by simp, fun h => by rw [h] at hfa; cases hfa⟩
+      refine ⟨hRc, fun h => absurd h (by simp), fun h => by rw [h] at hfa; cases hfa⟩
     · simp only [remoteCall, if_neg hfa]
       obtain ⟨hres, hbt, hstab, hdone⟩ := between_mkdir buffer R0 hc Rc hRc (pathDir w) W.dropLast hpd hparent
       have e : Root.mkdirAll Rc (pathDir w) = ((Root.mkdirAll Rc (pathDir w)).1, .ok) := by rw [← hres]
       rw [e]
       simp only [hfile, if_true, hread]
-      by_cases hfa2 : fa = some (n + 1)
-      · rw [if_pos hfa2]
-        refine ⟨hbt, hstab, by simp, fun h => by rw [h] at hfa2; cases hfa2⟩
-      · rw [if_neg hfa2]
-        obtain ⟨hres2, hbt2, hstab2, hdone2⟩ :=
-          between_write buffer hb R0 hc _ hbt w W d hn hW hdone
-        have e2 : Root.writer (Root.mkdirAll Rc (pathDir w)).1 w (ioChunks d)
-            = ((Root.writer (Root.mkdirAll Rc (pathDir w)).1 w (ioChunks d)).1, .ok) := by rw [← hres2]
-        rw [e2]
+      obtain ⟨sb, sok, snone⟩ := stream_spec buffer hb R0 hc fa (n + 1) _ hbt w W d hn hW hdone
+      rcases hs : remoteStream fa (n + 1) w (ioChunks d) (Root.mkdirAll Rc (pathDir w)).1 with ⟨⟨r2, res⟩, n'⟩
+      rw [hs] at sb sok snone
+      simp only [] at sb sok snone
+      cases res
+      case ok =>
         simp only []
-        obtain ⟨i1, i2, i3, i4⟩ := ih hrest _ (n + 2) hbt2
-        refine ⟨i1, fun q hq => i2 q (hstab2 q (hstab q hq)), fun hok x hx X hX q hq => ?_, i4⟩
+        obtain ⟨sstab, sdone⟩ := sok rfl
+        obtain ⟨i1, i2, i3⟩ := ih hrest r2 n' sb
+        refine ⟨i1, fun hok => ?_, i3⟩
+        obtain ⟨j1, j2⟩ := i2 hok
+        refine ⟨fun q hq => j1 q (sstab q (hstab q hq)), fun x hx X hX q hq => ?_⟩
         rcases List.mem_cons.mp hx with rfl | hx
         · rw [hn] at hX; cases hX
-          exact i2 q (hdone2 q hq)
-        · exact i3 hok x hx X hX q hq
+          exact j1 q (sdone q hq)
+        · exact j2 x hx X hX q hq
+      all_goals
+        simp only []
+        exact ⟨sb, fun h => absurd h (by simp), fun h => absurd (snone h) (by simp)⟩
 
 end
 
@@ -235,7 +299,8 @@ theorem vinv_of_between {s : State} {D : Node} (V : VInv s D) (Rc : Node)
     rcases h.2 q with h3 | ⟨h3, _⟩
     · exact V.compat q e e' h1 (h3 ▸ h2)
     · simp only [] at h2 h1
-      rw [h3, h1] at h2; cases h2; rfl
+      rw [h2, h1] at h3
+      simpa using h3.symm
   · rw [V.eq]
     funext q
     simp only [overlay]
@@ -393,7 +458,7 @@ theorem commit_class {s : State} {D : Node} (V : VInv s D) (J : JInv s) (rm rma 
     rcases hres2 : commitWrite fa s.buffer wr r1 n1 with ⟨r2, n2, ok2⟩
     rw [hres2] at hW
     simp only []
-    refine ⟨vinv_of_between V r2 hW.1, jinv_remote r2, fun hok => ?_, fun h => hW.2.2.2 h⟩
+    refine ⟨vinv_of_between V r2 hW.1, jinv_remote r2, fun hok => ?_, fun h => hW.2.2 h⟩
     funext q
     rw [V.eq]
     simp only [overlay]
@@ -411,9 +476,9 @@ theorem commit_class {s : State} {D : Node} (V : VInv s D) (J : JInv s) (rm rma 
         simp only [abs, Node.lookup, Option.map_some, Node.entry, Option.some.injEq] at hbq
         simp only [] at hk2
         rw [hk2, ← hbq]; rfl
-      · have := hW.2.2.1 hok w ((hwr w).mpr hw') W h1 q h2
+      · have := (hW.2.1 hok).2 w ((hwr w).mpr hw') W h1 q h2
         rw [this.1, hbq]
-      · have := hW.2.1 q (hM.2.2.1 rfl m ((hmk m).mpr hm') M h1 q h2)
+      · have := (hW.2.1 hok).1 q (hM.2.2.1 rfl m ((hmk m).mpr hm') M h1 q h2)
         rw [this.1, hbq]
 
 end Cache
